@@ -286,6 +286,12 @@ def patterns(repr_):
             P["h_far"] = [safe_lo, hi]          # neighbours more than 2^63 apart (differences overflow i64)
     else:
         P["h_lo_start"] = [0, 1, 5, hi]
+    # with-holes enums whose span, truncated to 8 / 16 / 32 bits, equals the variant count - 1 (a size or mode
+    # threshold computed in a narrower integer would take them for gapless)
+    for wb in (8, 16, 32):
+        m = 1 << wb
+        if hi >= m + 2:
+            P["h_span_wrap%d" % wb] = ([-1, 0, m + 1] if signed else [0, 1, m + 2])
     if bits == 8:
         P["g_full"] = list(range(tlo, thi + 1))                   # all 256 values
         P["h_full_but_one"] = [x for x in range(tlo, thi + 1) if x != (5 if not signed else -5)]
